@@ -232,7 +232,24 @@ func IfCond(b *ssa.BasicBlock) (*ssa.If, *CondInfo) {
 		break
 	}
 	if bo, ok := c.(*ssa.BinOp); ok {
-		return iff, &CondInfo{X: bo.X, Y: bo.Y, Op: bo.Op, Neg: neg}
+		ci := &CondInfo{X: bo.X, Y: bo.Y, Op: bo.Op, Neg: neg}
+		// normalise `const OP x` to `x OP' const`
+		if _, xc := ci.X.(*ssa.Const); xc {
+			if _, yc := ci.Y.(*ssa.Const); !yc {
+				ci.X, ci.Y = ci.Y, ci.X
+				switch ci.Op {
+				case token.LSS:
+					ci.Op = token.GTR
+				case token.LEQ:
+					ci.Op = token.GEQ
+				case token.GTR:
+					ci.Op = token.LSS
+				case token.GEQ:
+					ci.Op = token.LEQ
+				}
+			}
+		}
+		return iff, ci
 	}
 	return iff, &CondInfo{X: c, Op: token.ILLEGAL, Neg: neg}
 }
@@ -362,4 +379,82 @@ func Labels(t []TraceEvent) []string {
 		out = append(out, e.Label)
 	}
 	return out
+}
+
+// RetVal returns the i-th value returned by ret, looking through the spill that go/ssa introduces for
+// functions with defers (results are stored into locals and reloaded after rundefers).
+func RetVal(ret *ssa.Return, i int) ssa.Value {
+	if i >= len(ret.Results) {
+		return nil
+	}
+	v := ret.Results[i]
+	ld, ok := v.(*ssa.UnOp)
+	if !ok || ld.Op != token.MUL {
+		return v
+	}
+	al, ok := ld.X.(*ssa.Alloc)
+	if !ok || al.Heap {
+		return v
+	}
+	// last store into the local in this block (before the reload); else a unique store dominating the return
+	b := ret.Block()
+	var last ssa.Value
+	for _, ins := range b.Instrs {
+		if ins == ssa.Instruction(ld) {
+			break
+		}
+		if st, ok := ins.(*ssa.Store); ok && st.Addr == ssa.Value(al) {
+			last = st.Val
+		}
+	}
+	if last != nil {
+		return last
+	}
+	// named results assigned earlier: walk single-predecessor chain backwards
+	for blk := b; len(blk.Preds) == 1; {
+		blk = blk.Preds[0]
+		for i := len(blk.Instrs) - 1; i >= 0; i-- {
+			if st, ok := blk.Instrs[i].(*ssa.Store); ok && st.Addr == ssa.Value(al) {
+				return st.Val
+			}
+		}
+	}
+	return v
+}
+
+// VarArgs returns the values packed into a variadic argument (slice of a fresh array), by index.
+func VarArgs(v ssa.Value) []ssa.Value {
+	sl, ok := v.(*ssa.Slice)
+	if !ok {
+		return nil
+	}
+	al, ok := sl.X.(*ssa.Alloc)
+	if !ok {
+		return nil
+	}
+	out := map[int64]ssa.Value{}
+	max := int64(-1)
+	for _, ref := range *al.Referrers() {
+		ia, ok := ref.(*ssa.IndexAddr)
+		if !ok {
+			continue
+		}
+		idx, ok := ConstInt(ia.Index)
+		if !ok {
+			continue
+		}
+		for _, r2 := range *ia.Referrers() {
+			if st, ok := r2.(*ssa.Store); ok && st.Addr == ssa.Value(ia) {
+				out[idx] = st.Val
+				if idx > max {
+					max = idx
+				}
+			}
+		}
+	}
+	var res []ssa.Value
+	for i := int64(0); i <= max; i++ {
+		res = append(res, out[i])
+	}
+	return res
 }
